@@ -228,6 +228,23 @@ def run_unit(unit, ctx):
                         if str(p) != text:
                             ctx.violation("custom_format_roundtrip", dict(sig, how="text"), case, text, str(p))
                         ctx.traces += 1
+                        # a dump format given to the parser itself (all its results carry it), and one given per call
+                        for fmt_p, fmt_c in (("+XCCYY-DDDThh:mm:ss+hh:mm", None), ("+XCCYYMMDDThhmmss+hhmm", "+XCCYY-Www-DThh:mm:ssZ"),
+                                             (None, "+XCCYY-MM-DDThh:mm:ss+hh")):
+                            sig = {"ned": ned, "via": "parser_dump_format" if fmt_c is None else "call_dump_format"}
+                            pf = TimePointParser(num_expanded_year_digits=ned, dump_format=fmt_p)
+                            p2 = pf.parse(text, dump_format=fmt_c) if fmt_c else pf.parse(text)
+                            if p2._dump_format != (fmt_c or fmt_p):
+                                ctx.violation("custom_format_carried", sig, case, fmt_c or fmt_p, p2._dump_format)
+                            if fmt_c and fmt_c.endswith("+hh") and p2.time_zone.minutes:
+                                continue   # this format cannot spell the minutes of the offset
+                            for q, how in ((p2, "parsed"), (p2 + impl.Duration(days=1), "shifted")):
+                                ctx.transitions += 2
+                                t1 = str(q)
+                                back = parser.parse(t1)
+                                if not (back == q) or hash(back) != hash(q) or not (back == p if how == "parsed" else True):
+                                    ctx.violation("custom_format_roundtrip", dict(sig, how=how), case, impl.sstr(q),
+                                                  {"text": t1, "parsed": impl.sstr(back)})
                     except Exception as ex:
                         if type(ex).__name__ == "TimePointDumperBoundsError":
                             ctx.count("dump_bounds_refusals")
